@@ -27,6 +27,7 @@ SCRIPTS = {
     "two-strategies": [(0, ["P", A]), (1, ["P", B]), (0, ["C", 0, None])],
     "place-sp": [(0, ["P", dict(sel=1, side="LAY", ot="LOC", liab=10.0, price=3.0)]), (0, ["P", dict(sel=2, side="BACK", ot="MOC", liab=4.0)])],
     "place-handicap": [(0, ["P", dict(A, hc=-1.5)]), (0, ["C", 0, 2.0])],
+    "place-replace-cancel": [(0, ["P", A]), (0, ["R", 0, 2.4]), (0, ["C", 1, None])],  # the replacement order is cancelled
     # a line market (the script's name decides the market's ladder): a lay that can match, then a back
     "place-line": [(0, ["P", dict(sel=1, side="LAY", price=3.5, size=4.0)]), (0, ["P", dict(sel=1, side="BACK", price=2.5, size=2.0)])],
 }
